@@ -326,7 +326,7 @@ def build_assertions(con, spec, W, L, via_all):
         A.Assertion.make_all_assertions({con.id: con})
         d = con.assertions
     elif spec["scf"] == "SUPERMAJORITY":
-        if spec["f"] == F(1, 2) and spec["_rng"].random() < 0.5:
+        if spec["_rng"].random() < 0.3:     # the share is the contest's: the keyword (default 1/2) may be left out
             d = A.Assertion.make_supermajority_assertion(contest=con, winner=W[0], loser=L)
         else:
             d = A.Assertion.make_supermajority_assertion(contest=con, share_to_win=con.share_to_win, winner=W[0], loser=L)
